@@ -414,6 +414,18 @@ def dispatch():
     return
 
 
+def in_flight(jobid: str, target: str) -> bool:
+    '''is this unit on a worker or waiting in the farm for one'''
+    if f'{jobid}[{target}]' in _busy:
+        return True
+    if any(
+        m.jobid == jobid and (m.target if m.target else '__all__') == target
+        for m in _cluster + _cloud + _reject + _repeat
+    ):
+        return True
+    return any(j.tag == jobid and target in j.get('do') for j in _jobs)
+
+
 def notify_all():
     keep = dawgie.context.fsm.is_pipeline_active()
     cclist = list(filter(lambda w: w.notify(keep), _workers))
